@@ -136,16 +136,46 @@ def view_shape(case, dm):
 VALS = [1.0, -1.0, 0.5, 2.0, 0.0, -0.75, 1.5, 0.3]
 
 
-def gen_delays(rng, case, nw):
+def gen_delays(rng, case, nw, force=None):
     """-> (d values, dk) : dk[j] = the integer number of steps when entry j is on the grid BY CONSTRUCTION
     (d = k*dt computed once, in binary64 - the same value goes to the model and to the implementation), else None"""
     dt, ks, tol = case["dt"], case["ksteps"], case["syn"]["tol"]
     dyadic = case["dyadic"]
     style = rng.random()
     d, dk = [], []
+    if case.get("kfrac"):
+        # maximum delay strictly inside (0, dt): zero, between-grid values up to the maximum, the maximum itself, rarely beyond
+        mx = case["delay"]
+        for _ in range(nw):
+            r = rng.random()
+            if r < 0.25:
+                d.append(0.0); dk.append(0)
+            elif r < 0.93:
+                d.append(rng.choice([0.5, 1.0, 0.6, 0.25]) * mx); dk.append(None)
+            else:
+                d.append(mx + dt); dk.append(None)
+        return [float(v) for v in d], dk
     if not ks:
         return [0.0] * nw, [0] * nw
+    if case.get("long"):
+        # grid-aligned delays k*dt (binary64 product), k up to the maximum, always including the maximum itself
+        # (plain float arithmetic of the harness, no library code: the k whose quotient (k*dt)/dt is not exactly k)
+        special = [k for k in range(1, ks + 1) if (k * dt) / dt != k]
+        pool = special + special + [ks, rng.randint(0, ks), rng.randint(0, ks)]
+        ksel = ([ks] + special + [rng.choice(pool) for _ in range(nw)])[:nw] if nw > 1 else [rng.choice(special + [ks])]
+        rng.shuffle(ksel)
+        return [float(k * dt) for k in ksel], ksel
     hom = rng.randint(0, ks)
+    if force == "between":
+        # learned delays with a fractional part under / over dt/2 (previous and nearest differ on the spike view), some on the grid
+        for _ in range(nw):
+            r = rng.random()
+            k = rng.randint(0, ks - 1)
+            if r < 0.25:
+                d.append(k * dt); dk.append(k)
+            else:
+                d.append((k + rng.choice([0.25, 0.375, 0.75] if dyadic else [0.3, 0.41, 0.2, 0.7])) * dt); dk.append(None)
+        return [float(v) for v in d], dk
     if rng.random() < (0.55 if tol > 0 else 0.15):
         # deliberately NEAR the grid: k*dt +- eps with eps inside and outside the tolerance, on both sides, for k = 0 .. the
         # maximum step count (at k = 0 / k = max this leaves the supported range by less / more than the tolerance), and the
@@ -207,15 +237,34 @@ def kmask_of(dk):
     return [(-1 if k is None else k) for k in dk]
 
 
+# DOCUMENTED defaults of the optional arguments (from the docstrings of `partialconstructor` of the four synapse classes:
+# interp_mode / spike_interp_mode "previous", interp_tol 0.0, current_overbound 0.0, spike_overbound False, inplace False;
+# and of the connection constructors: bias False, delay None, batch_size 1).  Hard-coded on purpose: never read from the code.
+DOC_DEFAULTS = {"mode": 0, "tol": 0.0, "cur_ob": 0.0, "spk_ob": False, "inplace": False}
+
+
 def gen_case(rng: random.Random, idx: int):
     malformed = idx % 9 == 8
+    long_delay = idx % 13 == 5           # long maximum delays, tolerance exactly 0, non-representable dt
     conn = rng.choice(["dense", "dense", "dense", "direct", "direct", "lateral", "lateral", "conv", "conv", "conv"])
     cls = rng.randrange(4)
     dyadic = rng.random() < 0.5
-    dt = rng.choice([1.0, 0.5]) if dyadic else rng.choice([1.3, 1.3, 0.9, 0.45])
-    ksteps = rng.choice([None, 0, 1, 1, 3, 3, 3, 2, 6])
+    dt = rng.choice([1.0, 0.5]) if dyadic else rng.choice([1.3, 1.3, 0.9, 0.45, 0.7, 0.1])
+    ksteps = rng.choice([None, 0, 1, 1, 3, 3, 3, 2, 6, "frac", "frac"])
+    kfrac = None
     # interp_tol goes through partialconstructor for every class: none, and three magnitudes
     tol = rng.choice([0.0, 0.0, 1e-6, 1e-3, 0.25 * dt])
+    if long_delay:
+        conn = rng.choice(["direct", "direct", "dense"])
+        dyadic, dt, tol = False, rng.choice([0.7, 1.3, 0.1, 0.9, 0.45]), 0.0
+        ksteps = rng.choice([13, 14, 15, 21, 29, 30, 7, 22])
+        if not [k for k in range(1, ksteps + 1) if (k * dt) / dt != k]:
+            ksteps = 30
+        malformed = False
+    if ksteps == "frac":                 # a maximum delay strictly between 0 and dt
+        kfrac = rng.choice([0.5, 0.5, 0.25, 0.75]) if dyadic else rng.choice([0.5, 0.3, 0.8])
+        ksteps = 0
+        tol = rng.choice([0.0, 0.0, 1e-6])
     tau = rng.choice([5.0, 2.3, 0.8, 8.0])
     tr = rng.choice([0.5, 1.7, 0.3])
     if tau <= tr:
@@ -223,14 +272,40 @@ def gen_case(rng: random.Random, idx: int):
     syn = {"cls": cls, "Q": rng.choice([1.0, 2.0, -1.5, 0.7]), "tau": tau, "tr": tr, "mode": rng.randrange(2),
            "tol": float(tol), "cur_ob": rng.choice([0.0, 0.0, 0.0, None, 7.5]), "spk_ob": rng.choice([False, False, None, True]),
            "inplace": rng.random() < 0.5}
-    case = {"conn": conn, "syn": syn, "dt": dt, "dyadic": dyadic, "ksteps": ksteps,
-            "delay": None if ksteps is None else float(ksteps * dt), "B": rng.choice([1, 1, 2, 3]),
+    B = rng.choice([1, 1, 2, 3])
+    # optional arguments NOT passed to partialconstructor / the connection constructor: the documented default applies
+    omit = []
+    if rng.random() < 0.35:
+        for a in ("mode", "mode", "tol", "cur_ob", "spk_ob", "inplace", "bias", "delay", "batch_size"):
+            if rng.random() < 0.35 and a not in omit:
+                omit.append(a)
+        if (long_delay or kfrac) and "delay" in omit:
+            omit.remove("delay")
+        if long_delay and "tol" not in omit:
+            omit.append("tol")           # the default tolerance IS exactly 0
+    for a in omit:
+        if a in DOC_DEFAULTS:
+            syn[a] = DOC_DEFAULTS[a]
+    if "delay" in omit:
+        ksteps = None
+    if "batch_size" in omit:
+        B = 1
+    if long_delay:
+        B = 1
+    delay = None if ksteps is None else float(kfrac * dt if kfrac else ksteps * dt)
+    case = {"conn": conn, "syn": syn, "dt": dt, "dyadic": dyadic, "ksteps": ksteps, "kfrac": kfrac, "long": long_delay,
+            "delay": delay, "B": B, "omit": omit,
             "float_in": rng.random() < 0.35, "malformed": malformed}
     if conn == "dense":
         case["in"] = rng.choice([[1], [2], [3], [2, 2], [2]])
         case["out"] = rng.choice([[1], [2], [3], [2], [1, 2]])
     elif conn in ("direct", "lateral"):
         case["shape"] = rng.choice([[1], [2], [3], [2, 2], [3]] if conn == "direct" else [[2], [3], [2, 2], [3], [1]])
+    if long_delay:
+        if conn == "dense":
+            case["in"], case["out"] = rng.choice([[2], [3]]), rng.choice([[1], [2]])
+        else:
+            case["shape"] = rng.choice([[3], [4]])
     else:
         for _ in range(200):
             H, W = rng.randint(2, 4), rng.randint(2, 4)
@@ -245,19 +320,20 @@ def gen_case(rng: random.Random, idx: int):
         case["geom"] = {"H": H, "W": W, "C": C, "F": Fn, "kernel": k, "stride": s, "padding": p, "dilation": dl}
     dm = dims(case)
     case["W"] = [rng.choice(VALS) for _ in range(dm["nw"])]
-    case["b"] = [rng.choice(VALS) for _ in range(dm["nb"])] if rng.random() < 0.5 else None
-    case["kmax"] = ksteps or 0
-    d, dk = gen_delays(rng, case, dm["nw"])
+    case["b"] = [rng.choice(VALS) for _ in range(dm["nb"])] if (rng.random() < 0.5 and "bias" not in omit) else None
+    case["kmax"] = (ksteps or 0) if not kfrac else 1
+    d, dk = gen_delays(rng, case, dm["nw"], force=("between" if ("mode" in omit and ksteps) else None))
     if conn == "lateral":         # the masked setter zeroes the diagonal
         n = dm["I"]
         for i in range(n):
             dk[i * n + i] = 0
     case["d"], case["dk"], case["kmask"] = d, dk, kmask_of(dk)
     ops = []
-    nsteps = rng.randint(3, 8)
+    nsteps = rng.randint(3, 8) if not long_delay else ksteps + rng.randint(2, 4)
     p_spike = rng.choice([0.3, 0.5, 0.8])
     seg = {"dt": dt, "ksteps": ksteps, "delay": case["delay"], "B": case["B"]}     # configuration in force
-    kmax = ksteps or 0
+    kmax = case["kmax"]
+    noreconf = bool(kfrac) or long_delay
 
     def new_delays():
         sc = dict(case, **seg)
@@ -288,9 +364,13 @@ def gen_case(rng: random.Random, idx: int):
         else:
             ops.append(["step", dm["inshape"], xs, inj])
         r = rng.random()
+        if long_delay:
+            if len([o for o in ops if o[0] == "step"]) > ksteps and r < 0.5:
+                ops.append(rng.choice([["syncur"], ["synspk"]]))
+            continue
         if r < 0.30:
             ops.append(["syncur"])
-        if 0.15 < r < 0.45:
+        if 0.15 < r < 0.45 or ("mode" in omit and r < 0.8):
             ops.append(["synspk"])
         if r > 0.96:
             ops.append(["selector"])
@@ -307,6 +387,8 @@ def gen_case(rng: random.Random, idx: int):
             ops.append(["restore", rng.choice(["fresh", "used", "used"]), rng.randint(1, 5), rng.randint(0, 10**6)])
             if rng.random() < 0.4:
                 ops.append(rng.choice([["syncur"], ["synspk"]]))
+        elif noreconf and r2 < 0.18:
+            pass
         elif r2 < 0.145:
             # connection.dt = new step time (clears the synapse); the maximum delay stays the same number of ms
             cands = []
@@ -342,7 +424,7 @@ def gen_case(rng: random.Random, idx: int):
         ops.append(["syncur"])
         ops.append(["synspk"])
     case["ops"] = ops
-    case["kmax"] = kmax
+    case["kmax"] = max(kmax, 1) if kfrac else kmax
     return case
 
 
@@ -586,7 +668,14 @@ def expect(case, bank, what, e, t, dk):
         ob = sy["spk_ob"] if what == "spk" else sy["cur_ob"]
         if ob is not None:
             return (1 if ob else 0) if what == "spk" else float(ob)
-        cl = ("grid", 0 if Fraction(t) < 0 else ks)            # the value at the limit
+        if Fraction(t) < 0:
+            cl = ("grid", 0)                                      # the value at the limit
+        elif case.get("kfrac"):
+            cl = classify(case, case["delay"], None)
+            if cl is None:
+                return None
+        else:
+            cl = ("grid", ks)
     if cl[0] == "grid":
         return past(bank, cl[1], what, e)
     _, older, newer, since = cl
